@@ -14,7 +14,7 @@ func init() {
 	register(&propDef{
 		ID:      "C06",
 		Level:   "other",
-		Explain: "Data-race necessary conditions decided without a schedule, over all functions reachable from the per-request entry points (discovered by role): (S1) no store to memory reachable from a structure that lives across requests (types reachable from package variables, atomically published values, handler receivers and captured variables) unless the object is freshly built on the request path or a write lock is held at the store (interprocedural parameter/closure freshness, must-hold lockset); (S2) a field or variable that is accessed through sync/atomic anywhere is never read or written plainly; (S3) every access to a field of the reviewed lock table (tcp.Server.listeners/conns, the gRPC pool map, the glob-cache ring, the access-log writer, the Vault PKI cache, the server registry) holds its lock, directly or in every caller; (S4) the round-robin picker derives its index from the result of the atomic read-modify-write, and pickers select from the weighted ring; (S5) nothing writes a table after it is passed to the publishing store; (S6) each per-request lookup loads the published table once and nothing below Table.Lookup reloads it; (B1) in GlobCache.Get the eviction of the overwritten slot precedes the insertion, the ring grows only under n < len(l), and a cache miss is re-checked under the lock; (B2) no MustCompile of a non-constant pattern and no unguarded modulus on the request path. (S1/S5, extended) in-place library sorts/copies of a slice rooted in shared or published state are writes; Not decided: exact per-target pick counts under interleavings (arithmetic over histories) beyond their necessary condition S4.",
+		Explain: "Data-race necessary conditions decided without a schedule, over all functions reachable from the per-request entry points (discovered by role). Sites are located by what they do inside a region (an exported entry plus the helpers and closures it uses), not by the name of the function that contains them today. (S1) no store, map update, delete or in-place library sort/copy on memory reachable from a structure that lives across requests (types reachable from package variables, atomically published values, handler receivers and captured variables) unless the object is freshly built on the request path or a write lock is held at the store - directly, through a locking wrapper method, or in every caller (interprocedural parameter/closure freshness, must-hold lockset); (S2) a field or variable that is the subject of a sync/atomic operation anywhere (function form or a method of atomic.Value / atomic.Pointer[T] / atomic.Uint64 ...) is never read or written plainly outside the construction of a not yet shared object; (S3) every access to a field of the reviewed lock table (tcp.Server.listeners/conns, the gRPC pool map, the glob-cache ring, the access-log writer, the Vault PKI cache, the server registry) holds a lock, directly, through a locking wrapper, or in every caller; initialising helpers that only ever run on an object under construction are exempt; when a listed field was renamed the fields of that type written under its mutex take its place; (S4) over everything a registered picker can return (through helpers, merged results): nil only on an edge where the weighted ring is known to be empty, every other result is an element of the ring (a []*Target field of Route other than Route.Targets), the round-robin index derives from the value returned by the atomic read-modify-write on the cursor and from no other read of it, and nothing overwrites the cursor with a separate atomic store; (S5) nothing writes a value after it is handed to an atomic publishing store or to a function that (transitively) publishes its parameter; (S6) each per-request entry loads the published table (any function returning a route.Table obtained from an atomic load) at most once per path, helpers included, and nothing below a method of route.Table reloads it; (B1) in the region of GlobCache.Get: the cache map is changed only inside the critical section, a ring slot is appended only under index < len(ring), a slot is overwritten only together with deleting the key it held before, and a miss is re-checked after the lock is taken; (B2) no MustCompile of a non-constant pattern and no unguarded integer division/modulus on the request path (guards may sit at the call site of a helper or behind a one-line predicate). Not decided: exact per-target pick counts under interleavings (arithmetic over histories) beyond their necessary condition S4.",
 		Run:     runC06,
 		Trusted: []string{"sync.Mutex/RWMutex provide mutual exclusion; sync/atomic operations are atomic; sync.Map is safe for concurrent use",
 			"net/http hands each handler invocation its own *http.Request and ResponseWriter"},
@@ -33,6 +33,51 @@ func init() {
 			{Name: "GetTable inside Table.lookup", File: "route/table.go", Old: "\thost = strings.ToLower(host) // routes are always added lowercase\n\tfor _, r := range t[host] {", New: "\thost = strings.ToLower(host) // routes are always added lowercase\n\tfor _, r := range GetTable()[host] {", Expect: "C06.S6"},
 			{Name: "server registry read without the lock", File: "proxy/serve.go", Old: "\tmu.Lock()\n\tsrvs := make(map[string]Server, len(servers))", New: "\tsrvs := make(map[string]Server, len(servers))\n\tmu.Lock()", Expect: "C06.S3"},
 			{Name: "connection registry touched after unlock", File: "proxy/tcp/server.go", Old: "\t\ts.conns[c] = true\n\t\ts.mu.Unlock()", New: "\t\ts.mu.Unlock()\n\t\ts.conns[c] = true", Expect: "C06.S3"},
+			// ---- added by the hardening pass: breaks that exercise the rewritten rules
+			{Name: "cursor reset by a separate atomic store", File: "route/picker.go", Old: "\tn := atomic.AddUint64(&r.total, 1) - 1\n", New: "\tn := atomic.AddUint64(&r.total, 1) - 1\n\tif n > 1<<62 {\n\t\tatomic.StoreUint64(&r.total, 0)\n\t}\n", Expect: "C06.S4"},
+			{Name: "picker gives up on a ring of one", File: "route/picker.go", Old: "func rrPicker(r *Route) *Target {\n\tif len(r.wTargets) == 0 {", New: "func rrPicker(r *Route) *Target {\n\tif len(r.wTargets) <= 1 {", Expect: "C06.S4"},
+			{Name: "picker helper reads the cursor a second time", File: "route/picker.go", Old: "\tn := atomic.AddUint64(&r.total, 1) - 1\n\treturn r.wTargets[n%uint64(len(r.wTargets))]\n}", New: "\treturn r.wTargets[r.bump()%uint64(len(r.wTargets))]\n}\n\nfunc (r *Route) bump() uint64 {\n\tatomic.AddUint64(&r.total, 1)\n\treturn atomic.LoadUint64(&r.total) - 1\n}", Expect: "C06.S4"},
+			{Name: "pattern entered into the map before the lock is taken", File: "route/glob_cache.go", Old: "\tc.mu.Lock()\n\tdefer c.mu.Unlock()\n", New: "\tc.m.Store(pattern, glbCompiled)\n\tc.mu.Lock()\n\tdefer c.mu.Unlock()\n", Expect: "C06.B1"},
+			{Name: "ring grows while n <= len(l)", File: "route/glob_cache.go", Old: "\tif c.n < len(c.l) {", New: "\tif c.n <= len(c.l) {", Expect: "C06.B1"},
+			{Name: "eviction dropped by the extracted replace helper", File: "route/glob_cache.go", Old: "\tc.m.Delete(c.l[c.h])\n\tc.m.Store(pattern, glbCompiled)\n\tc.l[c.h] = pattern\n\tc.h = (c.h + 1) % len(c.l)\n\treturn glbCompiled, nil\n}", New: "\tc.replace(pattern, glbCompiled)\n\treturn glbCompiled, nil\n}\n\nfunc (c *GlobCache) replace(pattern string, g glob.Glob) {\n\tc.m.Store(pattern, g)\n\tc.l[c.h] = pattern\n\tc.h = (c.h + 1) % len(c.l)\n}", Expect: "C06.B1"},
+			{Name: "table mutated after a local wrapper published it", File: "main.go", Old: "\t\t\troute.SetTable(t)\n", New: "\t\t\tpublish := func(nt route.Table) { route.SetTable(nt) }\n\t\t\tpublish(t)\n\t\t\tdelete(t, \"\")\n", Expect: "C06.S5"},
+			{Name: "lookup closure loads the table twice through a helper", File: "main.go", Old: "\t\t\tt := route.GetTable().Lookup(r, r.Header.Get(\"trace\"), pick, match, globCache, cfg.GlobMatchingDisabled)\n", New: "\t\t\tcur := func() route.Table { return route.GetTable() }\n\t\t\tt := cur().Lookup(r, r.Header.Get(\"trace\"), pick, match, globCache, cfg.GlobMatchingDisabled)\n\t\t\tif t == nil {\n\t\t\t\tt = cur().Lookup(r, \"\", pick, match, globCache, cfg.GlobMatchingDisabled)\n\t\t\t}\n", Expect: "C06.S6"},
+			{Name: "ring slot written by a helper that does not lock", File: "route/glob_cache.go", Old: "func NewGlobCache(size int) *GlobCache {", New: "func (c *GlobCache) Forget(pattern string) {\n\tfor i := range c.l {\n\t\tif c.l[i] == pattern {\n\t\t\tc.l[i] = \"\"\n\t\t}\n\t}\n}\n\nfunc NewGlobCache(size int) *GlobCache {", Expect: "C06.S3"},
+			// ---- benign rewrites of kinds that are not in the corpus: must stay silent
+			{Name: "benign: picker delegates the whole selection to a method of Route", File: "route/picker.go", Old: "func rrPicker(r *Route) *Target {\n\tif len(r.wTargets) == 0 {\n\t\treturn nil\n\t}\n\tn := atomic.AddUint64(&r.total, 1) - 1\n\treturn r.wTargets[n%uint64(len(r.wTargets))]\n}", New: "func rrPicker(r *Route) *Target { return r.next() }\n\nfunc (r *Route) next() *Target {\n\tring := r.wTargets\n\tif len(ring) < 1 {\n\t\treturn nil\n\t}\n\treturn ring[(atomic.AddUint64(&r.total, 1)-1)%uint64(len(ring))]\n}", Expect: ""},
+			{Name: "benign: picker with a single return and a result variable", File: "route/picker.go", Old: "\tif len(r.wTargets) == 0 {\n\t\treturn nil\n\t}\n\treturn r.wTargets[randIntn(len(r.wTargets))]", New: "\tvar t *Target\n\tif n := len(r.wTargets); n > 0 {\n\t\tt = r.wTargets[randIntn(n)]\n\t}\n\treturn t", Expect: ""},
+			{Name: "benign: picker registry filled by an init function", File: "route/picker.go", Old: "var Picker = map[string]picker{\n\t\"rnd\": rndPicker,\n\t\"rr\":  rrPicker,\n}", New: "var Picker = map[string]picker{}\n\nfunc init() {\n\tPicker[\"rnd\"] = rndPicker\n\tPicker[\"rr\"] = rrPicker\n}", Expect: ""},
+			{Name: "benign: pickers as closures made by one constructor", File: "route/picker.go", Old: "var Picker = map[string]picker{\n\t\"rnd\": rndPicker,\n\t\"rr\":  rrPicker,\n}", New: "var Picker = map[string]picker{\n\t\"rnd\": pickWith(func(r *Route) uint64 { return uint64(randIntn(len(r.wTargets))) }),\n\t\"rr\":  pickWith(func(r *Route) uint64 { return atomic.AddUint64(&r.total, 1) - 1 }),\n}\n\nfunc pickWith(next func(r *Route) uint64) picker {\n\treturn func(r *Route) *Target {\n\t\tif len(r.wTargets) == 0 {\n\t\t\treturn nil\n\t\t}\n\t\treturn r.wTargets[next(r)%uint64(len(r.wTargets))]\n\t}\n}", Expect: ""},
+			{Name: "benign: head kept in a local, modulus written as compare-and-reset", File: "route/glob_cache.go", Old: "\tc.m.Delete(c.l[c.h])\n\tc.m.Store(pattern, glbCompiled)\n\tc.l[c.h] = pattern\n\tc.h = (c.h + 1) % len(c.l)\n", New: "\thead := c.h\n\tc.m.Delete(c.l[head])\n\tc.m.Store(pattern, glbCompiled)\n\tc.l[head] = pattern\n\tc.h++\n\tif c.h == len(c.l) {\n\t\tc.h = 0\n\t}\n", Expect: ""},
+			{Name: "benign: evicted key read first, deleted after the slot is overwritten", File: "route/glob_cache.go", Old: "\tc.m.Delete(c.l[c.h])\n\tc.m.Store(pattern, glbCompiled)\n\tc.l[c.h] = pattern\n", New: "\toldest := c.l[c.h]\n\tc.l[c.h] = pattern\n\tc.m.Store(pattern, glbCompiled)\n\tc.m.Delete(oldest)\n", Expect: ""},
+			{Name: "benign: eviction in a helper, full-ring case first", File: "route/glob_cache.go", Old: "\tif c.n < len(c.l) {\n\t\tc.m.Store(pattern, glbCompiled)\n\t\tc.l[c.n] = pattern\n\t\tc.n++\n\t\treturn glbCompiled, nil\n\t}\n\n\t// otherwise, remove the oldest element and move\n\t// the head. Note that once the buffer is full\n\t// (c.n == len(c.l)) it will never become smaller\n\t// again.\n\t// TODO add logging for cache full - How will this impact performance\n\tc.m.Delete(c.l[c.h])\n\tc.m.Store(pattern, glbCompiled)\n\tc.l[c.h] = pattern\n\tc.h = (c.h + 1) % len(c.l)\n\treturn glbCompiled, nil\n}\n", New: "\tif c.n >= len(c.l) {\n\t\tc.evictOldest()\n\t\tc.m.Store(pattern, glbCompiled)\n\t\tc.l[c.h] = pattern\n\t\tc.h = (c.h + 1) % len(c.l)\n\t\treturn glbCompiled, nil\n\t}\n\tc.m.Store(pattern, glbCompiled)\n\tc.l[c.n] = pattern\n\tc.n++\n\treturn glbCompiled, nil\n}\n\nfunc (c *GlobCache) evictOldest() {\n\tc.m.Delete(c.l[c.h])\n}\n", Expect: ""},
+			{Name: "benign: glob cache mutex renamed", File: "route/glob_cache.go", Old: "c.mu.", New: "c.guard.", All: true, More: []repl{{"\tmu sync.Mutex", "\tguard sync.Mutex"}}, Expect: ""},
+			{Name: "benign: glob cache embeds its mutex", File: "route/glob_cache.go", Old: "\tc.mu.Lock()\n\tdefer c.mu.Unlock()\n", New: "\tc.Lock()\n\tdefer c.Unlock()\n", More: []repl{{"\tmu sync.Mutex", "\tsync.Mutex"}}, Expect: ""},
+			{Name: "benign: explicit unlocks instead of defer in the glob cache", File: "route/glob_cache.go", Old: "\tc.mu.Lock()\n\tdefer c.mu.Unlock()\n\n\t// another request may have added the pattern while we were waiting\n\tif glb, ok := c.m.Load(pattern); ok {\n\t\treturn glb.(glob.Glob), nil\n\t}\n", New: "\tc.mu.Lock()\n\n\t// another request may have added the pattern while we were waiting\n\tif glb, ok := c.m.Load(pattern); ok {\n\t\tc.mu.Unlock()\n\t\treturn glb.(glob.Glob), nil\n\t}\n", More: []repl{{"\t\tc.n++\n\t\treturn glbCompiled, nil", "\t\tc.n++\n\t\tc.mu.Unlock()\n\t\treturn glbCompiled, nil"}, {"\tc.h = (c.h + 1) % len(c.l)\n\treturn glbCompiled, nil", "\tc.h = (c.h + 1) % len(c.l)\n\tc.mu.Unlock()\n\treturn glbCompiled, nil"}}, Expect: ""},
+			{Name: "benign: tcp server mutex renamed", File: "proxy/tcp/server.go", Old: "s.mu.", New: "s.lk.", All: true, More: []repl{{"\tmu        sync.Mutex", "\tlk        sync.Mutex"}}, Expect: ""},
+			{Name: "benign: server registry mutex renamed", File: "proxy/serve.go", Old: "\tmu.", New: "\tserversMu.", All: true, More: []repl{{"\tmu      sync.Mutex", "\tserversMu sync.Mutex"}, {"defer mu.Unlock()", "defer serversMu.Unlock()"}}, Expect: ""},
+			{Name: "benign: lookup closure keeps the snapshot in a local and delegates to a function", File: "main.go", Old: "\t\t\tt := route.GetTable().Lookup(r, r.Header.Get(\"trace\"), pick, match, globCache, cfg.GlobMatchingDisabled)\n", New: "\t\t\tsnapshot := func() route.Table { return route.GetTable() }\n\t\t\ttbl := snapshot()\n\t\t\tt := tbl.Lookup(r, r.Header.Get(\"trace\"), pick, match, globCache, cfg.GlobMatchingDisabled)\n", Expect: ""},
+			{Name: "benign: table published through a function value and only read afterwards", File: "main.go", Old: "\t\t\troute.SetTable(t)\n", New: "\t\t\tpublish := func(nt route.Table) { route.SetTable(nt) }\n\t\t\tpublish(t)\n\t\t\t_ = len(t)\n", Expect: ""},
+			{Name: "renamed ring head read by an accessor that does not lock", File: "route/glob_cache.go", Old: "c.h", New: "c.head", All: true, More: []repl{{"\th int", "\thead int"}, {"func NewGlobCache(size int) *GlobCache {", "func (c *GlobCache) Head() int { return c.head }\n\nfunc NewGlobCache(size int) *GlobCache {"}}, Expect: "C06.S3"},
+			{Name: "lock wrappers, ring touched after the unlocking wrapper", File: "proxy/tcp/server.go", Old: "\t\ts.conns[c] = true\n\t\ts.mu.Unlock()", New: "\t\ts.unlock()\n\t\ts.conns[c] = true", More: []repl{{"func (s *Server) Serve(l net.Listener) error {", "func (s *Server) unlock() { s.mu.Unlock() }\n\nfunc (s *Server) Serve(l net.Listener) error {"}}, Expect: "C06.S3"},
+			{Name: "benign: glob cache locked through wrapper methods", File: "route/glob_cache.go", Old: "\tc.mu.Lock()\n\tdefer c.mu.Unlock()\n", New: "\tc.lock()\n\tdefer c.unlock()\n", More: []repl{{"func NewGlobCache(size int) *GlobCache {", "func (c *GlobCache) lock()   { c.mu.Lock() }\nfunc (c *GlobCache) unlock() { c.mu.Unlock() }\n\nfunc NewGlobCache(size int) *GlobCache {"}}, Expect: ""},
+			{Name: "benign: constructor delegates the initialisation to a helper", File: "route/glob_cache.go", Old: "\treturn &GlobCache{\n\t\tl: make([]string, size),\n\t}\n}", New: "\tc := &GlobCache{}\n\tc.setup(size)\n\treturn c\n}\n\nfunc (c *GlobCache) setup(size int) {\n\tc.l = make([]string, size)\n\tc.h, c.n = 0, 0\n}", Expect: ""},
+			{Name: "benign: ring head field renamed", File: "route/glob_cache.go", Old: "c.h", New: "c.head", All: true, More: []repl{{"\th int", "\thead int"}}, Expect: ""},
+			{Name: "benign: ring fields and map renamed", File: "route/glob_cache.go", Old: "c.l", New: "c.ring", All: true, More: []repl{{"\tl []string", "\tring []string"}, {"\t\tl: make([]string, size),", "\t\tring: make([]string, size),"}}, Expect: ""},
+			{Name: "benign: emptiness and size of the ring behind one-line methods", File: "route/picker.go", Old: "func rrPicker(r *Route) *Target {\n\tif len(r.wTargets) == 0 {\n\t\treturn nil\n\t}\n\tn := atomic.AddUint64(&r.total, 1) - 1\n\treturn r.wTargets[n%uint64(len(r.wTargets))]\n}", New: "func rrPicker(r *Route) *Target {\n\tif r.noTargets() {\n\t\treturn nil\n\t}\n\tn := atomic.AddUint64(&r.total, 1) - 1\n\treturn r.wTargets[n%uint64(len(r.wTargets))]\n}\n\nfunc (r *Route) noTargets() bool { return len(r.wTargets) == 0 }", Expect: ""},
+			{Name: "benign: ring size from a one-line method", File: "route/picker.go", Old: "func rrPicker(r *Route) *Target {\n\tif len(r.wTargets) == 0 {\n\t\treturn nil\n\t}\n\tn := atomic.AddUint64(&r.total, 1) - 1\n\treturn r.wTargets[n%uint64(len(r.wTargets))]\n}", New: "func rrPicker(r *Route) *Target {\n\tsize := r.slots()\n\tswitch size {\n\tcase 0:\n\t\treturn nil\n\t}\n\tn := atomic.AddUint64(&r.total, 1) - 1\n\treturn r.wTargets[n%size]\n}\n\nfunc (r *Route) slots() uint64 { return uint64(len(r.wTargets)) }", Expect: ""},
+			{Name: "benign: redirect copy made with new and an assignment", File: "route/table.go", Old: "redirect := *target\n\t\t\t\tredirect.BuildRedirectURL(req.URL)\n\t\t\t\ttarget = &redirect", New: "redirect := new(Target)\n\t\t\t\t*redirect = *target\n\t\t\t\tredirect.BuildRedirectURL(req.URL)\n\t\t\t\ttarget = redirect", Expect: ""},
+			{Name: "benign: redirect copy made by a cloning method", File: "route/table.go", Old: "redirect := *target\n\t\t\t\tredirect.BuildRedirectURL(req.URL)\n\t\t\t\ttarget = &redirect", New: "target = target.redirected(req.URL)", More: []repl{{"func (t Table) LookupHost(", "func (t *Target) redirected(u *url.URL) *Target {\n\tc := *t\n\tc.BuildRedirectURL(u)\n\treturn &c\n}\n\nfunc (t Table) LookupHost("}}, Expect: ""},
+			{Name: "benign: host lookup closure turned into a method value", File: "main.go", Old: "\treturn func(host string) *route.Target {\n\t\tt := route.GetTable().LookupHost(host, pick)\n\t\tif t == nil {\n\t\t\tnotFound.Add(1)\n\t\t\tlog.Print(\"[WARN] No route for \", host)\n\t\t}\n\t\treturn t\n\t}\n}", New: "\treturn hostLookup{pick, notFound}.find\n}\n\ntype hostLookup struct {\n\tpick     func(*route.Route) *route.Target\n\tnotFound gkm.Counter\n}\n\nfunc (h hostLookup) find(host string) *route.Target {\n\tt := route.GetTable().LookupHost(host, h.pick)\n\tif t == nil {\n\t\th.notFound.Add(1)\n\t\tlog.Print(\"[WARN] No route for \", host)\n\t}\n\treturn t\n}", Expect: ""},
+			{Name: "benign: gRPC lookup helper renamed", File: "proxy/grpc_handler.go", Old: "g.lookup(ctx, info.FullMethod)", New: "g.findTarget(ctx, info.FullMethod)", More: []repl{{"func (g GrpcProxyInterceptor) lookup(ctx context.Context", "func (g GrpcProxyInterceptor) findTarget(ctx context.Context"}}, Expect: ""},
+			{Name: "benign: glob cache insert statements reordered, switch instead of if", File: "route/glob_cache.go", Old: "\tif c.n < len(c.l) {\n\t\tc.m.Store(pattern, glbCompiled)\n\t\tc.l[c.n] = pattern\n\t\tc.n++\n\t\treturn glbCompiled, nil\n\t}\n", New: "\tswitch {\n\tcase c.n < len(c.l):\n\t\tc.l[c.n] = pattern\n\t\tc.n++\n\t\tc.m.Store(pattern, glbCompiled)\n\t\treturn glbCompiled, nil\n\t}\n", More: []repl{{"\tc.m.Delete(c.l[c.h])\n\tc.m.Store(pattern, glbCompiled)\n\tc.l[c.h] = pattern\n", "\tc.m.Delete(c.l[c.h])\n\tc.l[c.h] = pattern\n\tc.m.Store(pattern, glbCompiled)\n"}}, Expect: ""},
+			{Name: "benign: tcp connection registry updated by locked helper methods", File: "proxy/tcp/server.go", Old: "\t\ts.mu.Lock()\n\t\tif s.conns == nil {\n\t\t\ts.conns = map[net.Conn]bool{}\n\t\t}\n\t\ts.conns[c] = true\n\t\ts.mu.Unlock()", New: "\t\ts.track(c)", More: []repl{{"func (s *Server) Serve(l net.Listener) error {", "func (s *Server) track(c net.Conn) {\n\ts.mu.Lock()\n\tdefer s.mu.Unlock()\n\tif s.conns == nil {\n\t\ts.conns = map[net.Conn]bool{}\n\t}\n\ts.conns[c] = true\n}\n\nfunc (s *Server) Serve(l net.Listener) error {"}}, Expect: ""},
+			{Name: "request path divides by the ring size without a guard", File: "route/picker.go", Old: "func rrPicker(r *Route) *Target {\n\tif len(r.wTargets) == 0 {\n\t\treturn nil\n\t}\n", New: "func rrPicker(r *Route) *Target {\n", Expect: "C06.B2"},
+			{Name: "MustCompile of a host pattern on the request path", File: "route/table.go", Old: "\t\t\t// a pattern which does not compile cannot match\n\t\t\tlog.Print(\"[ERROR] Compiling glob - \", err)\n\t\t\tcontinue", New: "\t\t\tg = glob.MustCompile(normpat)", Expect: "C06.B2"},
+			{Name: "benign: table touched before it is published, inside the update loop", File: "main.go", Old: "\t\t\troute.SetTable(t)\n", New: "\t\t\tif len(t) < 0 {\n\t\t\t\tdelete(t, \"\")\n\t\t\t}\n\t\t\troute.SetTable(t)\n", Expect: ""},
+			{Name: "benign: cache entry point renamed, insertion in a second method", File: "route/glob_cache.go", Old: "func (c *GlobCache) Get(pattern string) (glob.Glob, error) {", New: "func (c *GlobCache) Get(pattern string) (glob.Glob, error) { return c.Compiled(pattern) }\n\nfunc (c *GlobCache) Compiled(pattern string) (glob.Glob, error) {", Expect: ""},
+			{Name: "benign: slot selection in a method with another receiver name, guard at the call site", File: "route/picker.go", Old: "\tn := atomic.AddUint64(&r.total, 1) - 1\n\treturn r.wTargets[n%uint64(len(r.wTargets))]\n}", New: "\treturn r.slot(atomic.AddUint64(&r.total, 1) - 1)\n}\n\nfunc (rt *Route) slot(n uint64) *Target {\n\treturn rt.wTargets[n%uint64(len(rt.wTargets))]\n}", Expect: ""},
+			{Name: "slot helper called without the emptiness guard", File: "route/picker.go", Old: "func rrPicker(r *Route) *Target {\n\tif len(r.wTargets) == 0 {\n\t\treturn nil\n\t}\n\tn := atomic.AddUint64(&r.total, 1) - 1\n\treturn r.wTargets[n%uint64(len(r.wTargets))]\n}", New: "func rrPicker(r *Route) *Target {\n\treturn r.slot(atomic.AddUint64(&r.total, 1) - 1)\n}\n\nfunc (rt *Route) slot(n uint64) *Target {\n\treturn rt.wTargets[n%uint64(len(rt.wTargets))]\n}", Expect: "C06.B2"},
 			{Name: "benign: RWMutex write lock", File: "route/glob_cache.go", Old: "mu sync.Mutex", New: "mu sync.RWMutex", Expect: ""},
 			{Name: "benign: explicit unlock instead of defer in picker-free code", File: "route/picker.go", Old: "n := atomic.AddUint64(&r.total, 1) - 1", New: "n := atomic.AddUint64(&r.total, 1)\n\tn--", Expect: ""},
 		},
@@ -41,15 +86,16 @@ func init() {
 
 func runC06(c *Ctx) {
 	sa := newSharedAnalysis(c)
-	n := sa.s1("C06.S1", nil)
+	n := c06s1(sa, "C06.S1")
 	c.atLeast("C06.S1", "stores into cross-request structures reachable from serving roots", n, 3)
-	runS2(c, "C06.S2")
-	n3 := sa.s3("C06.S3")
+	runS2(c, sa, "C06.S2")
+	n3 := c06s3(sa, "C06.S3")
 	c.atLeast("C06.S3", "accesses to lock-guarded fields", n3, 10)
 	runPickers(c, "C06.S4")
 	runPublish(c, "C06.S5", "C06.S6")
 	runGlobCacheB1(c)
 	runRequestPathPanics(c, "C06.B2")
+	c06dump(c)
 }
 
 // ---- S2: atomic consistency --------------------------------------------------------------
@@ -73,25 +119,24 @@ func atomicTargetKey(v ssa.Value) (string, bool) {
 // copies an atomically updated counter plainly, is outside every property's anchors (observed, not claimed).
 var s2Packages = map[string]bool{"route": true, "proxy": true, "tcp": true, "cert": true, "main": true, "gzip": true, "logger": true, "noroute": true}
 
-func runS2(c *Ctx, rule string) {
+// runS2: a field or package variable that is the subject of a sync/atomic operation anywhere (function form
+// atomic.AddUint64(&x.f, ..) or a method of atomic.Value / atomic.Pointer[T] / atomic.Uint64 ...) has no plain
+// load or store outside package initialisation and outside the construction of a not yet shared object.
+func runS2(c *Ctx, sa *sharedAnalysis, rule string) {
 	atomics := map[string]token.Pos{}
 	for _, f := range c.AllFns {
-		if f.Pkg == nil || !s2Packages[f.Pkg.Pkg.Name()] {
+		if rp := c06rootPkg(f); rp == nil || !s2Packages[rp.Pkg.Name()] {
 			continue
 		}
 		eachInstr(f, func(i ssa.Instruction) {
-			cc := callCommon(i)
-			if cc == nil || !strings.HasPrefix(calleeName(cc), "sync/atomic.") || len(cc.Args) == 0 {
-				return
-			}
-			if k, ok := atomicTargetKey(cc.Args[0]); ok {
-				if _, seen := atomics[k]; !seen {
-					atomics[k] = i.Pos()
+			if as, ok := c06atomicSiteOf(i); ok {
+				if _, seen := atomics[as.key]; !seen {
+					atomics[as.key] = i.Pos()
 				}
 			}
 		})
 	}
-	c.atLeast(rule, "fields/variables accessed through sync/atomic", len(atomics), 2)
+	c.atLeast(rule, "fields/variables accessed through sync/atomic", len(atomics), 1)
 	plain := map[string]bool{}
 	for _, f := range c.AllFns {
 		if isInitFn(f) {
@@ -118,11 +163,10 @@ func runS2(c *Ctx, rule string) {
 			if _, isAtomic := atomics[k]; !isAtomic {
 				return
 			}
-			// initialisation of a freshly allocated struct is not shared yet
-			if fa, isFA := addr.(*ssa.FieldAddr); isFA {
-				if _, isAlloc := fa.X.(*ssa.Alloc); isAlloc {
-					return
-				}
+			// initialisation of a freshly built struct (a literal, or an object a constructor helper just returned)
+			// is not shared yet
+			if fa, isFA := addr.(*ssa.FieldAddr); isFA && c06notYetShared(sa, fa.X, f) {
+				return
 			}
 			plain[k] = true
 			c.ob(rule, fnKey(f)+"|"+what+" of "+k, i.Pos(), Viol,
@@ -136,118 +180,154 @@ func runS2(c *Ctx, rule string) {
 	}
 }
 
+// c06notYetShared: base is an object allocated in this function, or obtained from a repository constructor that
+// returns a freshly allocated object on all its returns.
+func c06notYetShared(sa *sharedAnalysis, base ssa.Value, in *ssa.Function) bool {
+	switch x := base.(type) {
+	case *ssa.Alloc:
+		return true
+	case *ssa.Call:
+		if sc := x.Call.StaticCallee(); sc != nil && sa != nil {
+			if g := unwrap(sc); isRepoFn(g) && len(g.Blocks) > 0 {
+				return sa.returnsFresh(g, 0)
+			}
+		}
+	case *ssa.Phi:
+		for _, e := range x.Edges {
+			if !c06notYetShared(sa, e, in) {
+				return false
+			}
+		}
+		return len(x.Edges) > 0
+	}
+	return false
+}
+
 // ---- S4 / R2 / R3: pickers ------------------------------------------------------------------
 
-// registryFuncs returns the functions stored as values in the package-level map pkg.name.
+// registryFuncs returns the functions stored as values in the package-level map pkg.name: the entries of the map
+// literal the variable is initialised with, and entries added to the variable by any function of the package
+// (`func init() { Picker["rr"] = rrPicker }`). An entry may be a named function, a closure, a method value or the
+// result of a repository function that returns one of those; one element per map entry.
 func registryFuncs(c *Ctx, pkg, name string) []*ssa.Function {
 	g := c.global(pkg, name)
-	if g == nil {
+	sp := c.spkg(pkg)
+	if g == nil || sp == nil {
 		return nil
 	}
 	var out []*ssa.Function
-	initFn := c.spkg(pkg).Func("init")
-	if initFn == nil {
-		return nil
+	fns := c.fnsWhere(pkg, func(*ssa.Function) bool { return true })
+	if initFn := sp.Func("init"); initFn != nil {
+		// the synthetic package initialiser (map literals of package variables) is not among AllFns
+		fns = append([]*ssa.Function{initFn}, fns...)
 	}
-	eachInstr(initFn, func(i ssa.Instruction) {
-		mu, ok := i.(*ssa.MapUpdate)
-		if !ok {
-			return
+	seenFn := map[*ssa.Function]bool{}
+	for _, fn := range fns {
+		if seenFn[fn] {
+			continue
 		}
-		// map value flows into the global
-		isTarget := false
-		if mm, ok := mu.Map.(*ssa.MakeMap); ok {
-			for _, r := range *mm.Referrers() {
-				if st, ok := r.(*ssa.Store); ok && st.Addr == g {
-					isTarget = true
-				}
-			}
-		}
-		if !isTarget {
-			return
-		}
-		v := mu.Value
-		for {
-			if ct, ok := v.(*ssa.ChangeType); ok {
-				v = ct.X
-				continue
-			}
-			break
-		}
-		switch fv := v.(type) {
-		case *ssa.Function:
-			out = append(out, fv)
-		case *ssa.MakeClosure:
-			out = append(out, fv.Fn.(*ssa.Function))
-		}
-	})
-	return out
-}
-
-func runPickers(c *Ctx, rule string) {
-	pickers := registryFuncs(c, "route", "Picker")
-	c.atLeast(rule, "functions registered in route.Picker", len(pickers), 2)
-	for _, p := range pickers {
-		// the atomic RMW on a Route field, if any
-		var rmw *ssa.Call
-		var rmwKey string
-		eachInstr(p, func(i ssa.Instruction) {
-			call, ok := i.(*ssa.Call)
+		seenFn[fn] = true
+		eachInstr(fn, func(i ssa.Instruction) {
+			mu, ok := i.(*ssa.MapUpdate)
 			if !ok {
 				return
 			}
-			n := calleeName(&call.Call)
-			if strings.HasPrefix(n, "sync/atomic.Add") || strings.HasPrefix(n, "sync/atomic.Swap") || strings.HasPrefix(n, "sync/atomic.CompareAndSwap") {
-				if k, ok := atomicTargetKey(call.Call.Args[0]); ok && strings.HasPrefix(k, "route.Route.") {
-					rmw, rmwKey = call, k
+			// the map is the one held by the global
+			isTarget := false
+			switch m := mu.Map.(type) {
+			case *ssa.MakeMap:
+				for _, r := range *m.Referrers() {
+					if st, ok := r.(*ssa.Store); ok && st.Addr == g {
+						isTarget = true
+					}
+				}
+			case *ssa.UnOp:
+				isTarget = m.Op == token.MUL && m.X == g
+			}
+			if !isTarget {
+				return
+			}
+			for _, f := range funcsOf(mu.Value) {
+				if isRepoFn(f) && len(f.Blocks) > 0 {
+					out = append(out, f)
+					break
 				}
 			}
 		})
-		eachInstr(p, func(i ssa.Instruction) {
-			r, ok := i.(*ssa.Return)
-			if !ok || len(r.Results) != 1 {
+	}
+	return out
+}
+
+// runPickers (C06.S4, C04.R2/R3). For every function registered in route.Picker, over everything it can return
+// (results of helpers it delegates to included):
+//   - "no target" (nil) is returned only on an edge on which the weighted ring is known to be empty;
+//   - every other result is an element of the weighted ring of the route (a []*Target field of Route other than the
+//     configuration-facing list Route.Targets);
+//   - when the picker's region advances a shared cursor (an atomic read-modify-write on a Route field), the slot index
+//     derives from the value that read-modify-write returned and from no other read of the cursor; and nothing in the
+//     repository overwrites the cursor with a blind atomic store (two separate atomic operations are not one).
+func runPickers(c *Ctx, rule string) {
+	pickers := registryFuncs(c, "route", "Picker")
+	c.atLeast(rule, "functions registered in route.Picker", len(pickers), 2)
+	isRing := func(v ssa.Value) bool { return c06ringField(v) }
+	fromRing := func(v ssa.Value) bool { return derives(v, isRing) }
+	cursors := map[string]token.Pos{}
+	done := map[*ssa.Function]bool{}
+	for _, p := range pickers {
+		if done[p] {
+			continue
+		}
+		done[p] = true
+		// the atomic read-modify-writes on a Route field in the picker and the helpers it calls
+		rmw := map[ssa.Value]bool{}
+		rmwKey := ""
+		eachInstrOf(c.region(p), func(_ *ssa.Function, i ssa.Instruction) {
+			as, ok := c06atomicSiteOf(i)
+			if !ok || !c06isRMW(as.kind) || !strings.HasPrefix(as.key, "route.Route.") {
 				return
 			}
-			if isNilConst(r.Results[0]) {
+			if v, isV := i.(ssa.Value); isV {
+				rmw[v] = true
+				rmwKey = as.key
+				if _, seen := cursors[as.key]; !seen {
+					cursors[as.key] = i.Pos()
+				}
+			}
+		})
+		results := c06results(p)
+		c.atLeast(rule, "results of picker "+fnKey(p), len(results), 1)
+		for _, r := range results {
+			if isNilConst(r.v) {
 				// "no target" is acceptable only when the ring is known to be empty
 				empty := false
-				for _, f := range factsAt(r.Block()) {
-					if b, isB := f.Cond.(*ssa.BinOp); isB && b.Op == token.EQL && f.Truth {
-						if call, isCall := b.X.(*ssa.Call); isCall && calleeName(&call.Call) == "builtin.len" {
-							if _, isRing := fieldOf(call.Call.Args[0], "route.Route", "wTargets"); isRing {
-								if n, ok := constInt(b.Y); ok && n == 0 {
-									empty = true
-								}
-							}
-						}
+				for _, f := range r.facts() {
+					if c06zeroLenFact(f, fromRing) {
+						empty = true
 					}
 				}
-				c.check(rule, fnKey(p)+"|nil only for an empty ring", r.Pos(), empty, "a picker may report no target only when the weighted ring is empty")
-				return
+				c.check(rule, fnKey(p)+"|nil only for an empty ring", r.pos, empty, "a picker may report no target only when the weighted ring is empty")
+				continue
 			}
-			// result must be an element of the ring field wTargets
+			// result must be an element of the ring
 			var idx ssa.Value
-			fromRing := false
-			v := r.Results[0]
-			if u, ok := v.(*ssa.UnOp); ok && u.Op == token.MUL {
+			onRing := false
+			if u, ok := r.v.(*ssa.UnOp); ok && u.Op == token.MUL {
 				if ia, ok := u.X.(*ssa.IndexAddr); ok {
 					idx = ia.Index
-					if _, isRing := fieldOf(ia.X, "route.Route", "wTargets"); isRing {
-						fromRing = true
-					}
+					onRing = fromRing(ia.X) && !derives(ia.X, c06plainTargetsField)
 				}
 			}
-			c.check(rule, fnKey(p)+"|returns element of the weighted ring", r.Pos(), fromRing,
+			c.check(rule, fnKey(p)+"|returns element of the weighted ring", r.pos, onRing,
 				"a picker must select from Route.wTargets (the ring built from the weights); selecting from Route.Targets ignores the configured weights and can pick a zero-weight target")
-			if rmw == nil || idx == nil {
-				if rmw == nil && idx != nil {
-					c.ob(rule, fnKey(p)+"|no shared cursor", r.Pos(), OK, "picker keeps no shared cursor")
+			if len(rmw) == 0 || idx == nil {
+				if len(rmw) == 0 && idx != nil {
+					c.ob(rule, fnKey(p)+"|no shared cursor", r.pos, OK, "picker keeps no shared cursor")
 				}
-				return
+				continue
 			}
-			usesRMW := derives(idx, func(x ssa.Value) bool { return x == rmw })
+			usesRMW := derives(idx, func(x ssa.Value) bool { return rmw[x] })
 			usesOther := derives(idx, func(x ssa.Value) bool {
-				if x == rmw {
+				if rmw[x] {
 					return false
 				}
 				if u, ok := x.(*ssa.UnOp); ok && u.Op == token.MUL {
@@ -255,41 +335,110 @@ func runPickers(c *Ctx, rule string) {
 						return true
 					}
 				}
-				if call, ok := x.(*ssa.Call); ok && strings.HasPrefix(calleeName(&call.Call), "sync/atomic.Load") {
-					if k, ok := atomicTargetKey(call.Call.Args[0]); ok && k == rmwKey {
+				if call, ok := x.(*ssa.Call); ok {
+					if as, ok := c06atomicSiteOf(call); ok && as.kind == "load" && as.key == rmwKey {
 						return true
 					}
 				}
 				return false
 			})
-			c.check(rule, fnKey(p)+"|index from RMW result", r.Pos(), usesRMW && !usesOther,
+			c.check(rule, fnKey(p)+"|index from RMW result", r.pos, usesRMW && !usesOther,
 				"the slot index must be computed from the value returned by the atomic read-modify-write on "+rmwKey+"; a separate (plain or atomic) read lets two concurrent requests draw the same slot, so targets no longer get their exact share")
-		})
+		}
+	}
+	// the cursor is advanced by its read-modify-write only
+	for key, pos := range cursors {
+		clean := true
+		for _, f := range c.AllFns {
+			if isInitFn(f) {
+				continue
+			}
+			eachInstr(f, func(i ssa.Instruction) {
+				as, ok := c06atomicSiteOf(i)
+				if !ok || as.key != key || as.kind != "store" {
+					return
+				}
+				if fa, isFA := callCommon(i).Args[0].(*ssa.FieldAddr); isFA {
+					if _, isAlloc := fa.X.(*ssa.Alloc); isAlloc {
+						return // construction
+					}
+				}
+				clean = false
+				c.ob(rule, fnKey(f)+"|index from RMW result: no blind store to the cursor", i.Pos(), Viol,
+					"the round-robin cursor "+key+" is advanced by an atomic read-modify-write at "+c.pos(pos)+"; a separate atomic store (wrap-around, reset) is a second operation: requests that draw a slot between the two repeat or skip slots, so a full cycle no longer gives every target its exact share")
+			})
+		}
+		if clean {
+			c.ob(rule, "cursor|index from RMW result: "+key+" is written by its read-modify-write only", pos, OK, "no blind atomic store to the cursor")
+		}
 	}
 }
 
 // ---- S5 / S6: publish-after-build, one snapshot per operation --------------------------------
 
-// publishers: repo functions that pass one of their parameters to (*atomic.Value).Store.
+// publishers: repository functions that publish one of their parameters: they hand it to an atomic store / swap /
+// compare-and-swap (any spelling: atomic.Value, atomic.Pointer[T] with the address of a copy, unsafe pointers), or pass
+// it on to a function that does (transitively: a setter that validates and delegates, a helper type around the
+// atomic cell, a wrapper in the caller's package). Maps each publisher to the index of the published parameter.
 func publishers(c *Ctx) map[*ssa.Function]int {
 	out := map[*ssa.Function]int{}
 	for _, f := range c.AllFns {
 		eachInstr(f, func(i ssa.Instruction) {
 			cc := callCommon(i)
 			kind, _, val, isAtomic := atomicOp(cc)
-			if !isAtomic || kind != "store" || val == nil {
+			if !isAtomic || (kind != "store" && kind != "swap" && kind != "cas") || val == nil {
 				return
 			}
-			for _, v := range publishedValue(val) {
-				for k, p := range f.Params {
-					if v == p {
-						out[f] = k
-					}
+			if _, isBasic := stripIface(val).Type().Underlying().(*types.Basic); isBasic {
+				return
+			}
+			for _, v := range c06publishedParts(val) {
+				if k, ok := c06flowsFromParam(v, f); ok {
+					out[f] = k
 				}
 			}
 		})
 	}
+	for changed, iter := true, 0; changed && iter < 6; iter++ {
+		changed = false
+		for _, f := range c.AllFns {
+			if _, known := out[f]; known {
+				continue
+			}
+			eachInstr(f, func(i ssa.Instruction) {
+				cc := callCommon(i)
+				if cc == nil {
+					return
+				}
+				for _, g := range c06calleesOf(cc) {
+					k, isPub := out[g]
+					if !isPub || g == f {
+						continue
+					}
+					args := c06argsFor(cc, g)
+					if k >= len(args) {
+						continue
+					}
+					if j, ok := c06flowsFromParam(args[k], f); ok {
+						if _, known := out[f]; !known {
+							out[f] = j
+							changed = true
+						}
+					}
+				}
+			})
+		}
+	}
 	return out
+}
+
+// c06argsFor: the arguments of the call aligned with g's parameters (a bound method value called dynamically does not
+// carry its receiver among the arguments).
+func c06argsFor(cc *ssa.CallCommon, g *ssa.Function) []ssa.Value {
+	if cc.StaticCallee() == nil && g.Signature.Recv() != nil && len(g.Params) == len(cc.Args)+1 {
+		return append([]ssa.Value{nil}, cc.Args...)
+	}
+	return cc.Args
 }
 
 // writesThroughParam: f (transitively, depth-limited) stores through memory reachable from parameter k.
@@ -331,31 +480,135 @@ func writesThroughParam(c *Ctx, f *ssa.Function, k int, depth int, seen map[*ssa
 	return found
 }
 
+// c06tableLoaders: the functions that hand out the published routing table: they return a route.Table that derives
+// from an atomic load (route.GetTable today; also a helper type's load method, a renamed or additional accessor).
+func c06tableLoaders(c *Ctx) map[*ssa.Function]bool {
+	out := map[*ssa.Function]bool{}
+	isLoad := func(v ssa.Value) bool {
+		call, ok := v.(*ssa.Call)
+		if !ok {
+			return false
+		}
+		kind, _, _, isAtomic := atomicOp(&call.Call)
+		return isAtomic && kind == "load"
+	}
+	for _, f := range c.AllFns {
+		res := f.Signature.Results()
+		if res.Len() != 1 || !namedIs(res.At(0).Type(), "route.Table") {
+			continue
+		}
+		eachInstr(f, func(i ssa.Instruction) {
+			if r, ok := i.(*ssa.Return); ok && len(r.Results) == 1 && derives(r.Results[0], isLoad) {
+				out[f] = true
+			}
+		})
+	}
+	return out
+}
+
+// c06loadSites: the instructions of f that (may) load the published table: a call of a loader, or a static call of a
+// repository helper that may do so (transitively).
+func c06loadSites(f *ssa.Function, loaders map[*ssa.Function]bool) []ssa.Instruction {
+	isLoaderCall := func(i ssa.Instruction) bool {
+		cc := callCommon(i)
+		if cc == nil {
+			return false
+		}
+		if _, isDefer := i.(*ssa.Defer); isDefer {
+			return false
+		}
+		for _, g := range c06calleesOf(cc) {
+			if loaders[g] {
+				return true
+			}
+		}
+		return false
+	}
+	lifted := liftMay(isLoaderCall)
+	var out []ssa.Instruction
+	eachInstr(f, func(i ssa.Instruction) {
+		if _, isGo := i.(*ssa.Go); isGo {
+			return
+		}
+		if lifted(i) {
+			out = append(out, i)
+		}
+	})
+	return out
+}
+
+// c06loadsTwice: some path through f loads the published table twice: two load sites on one path (a site in a loop
+// counts twice), or a helper called on the path that itself loads twice.
+func c06loadsTwice(f *ssa.Function, loaders map[*ssa.Function]bool, depth int) bool {
+	if f == nil || depth > 3 || loaders[f] {
+		return false
+	}
+	sites := c06loadSites(f, loaders)
+	for _, a := range sites {
+		for _, b := range sites {
+			if pathAvoiding(a, b, nil) {
+				return true
+			}
+		}
+		if cc := callCommon(a); cc != nil {
+			for _, g := range c06calleesOf(cc) {
+				if !loaders[g] && c06loadsTwice(g, loaders, depth+1) {
+					return true
+				}
+			}
+		}
+	}
+	return false
+}
+
+// c06redefines: the predicate "this instruction (re)defines one of vals": a path from the publication back around a
+// loop to a write that passes the definition again writes a different, not yet published object.
+func c06redefines(vals ...ssa.Value) func(ssa.Instruction) bool {
+	defs := map[ssa.Instruction]bool{}
+	for _, v := range vals {
+		if in, ok := v.(ssa.Instruction); ok {
+			defs[in] = true
+		}
+	}
+	if len(defs) == 0 {
+		return nil
+	}
+	return func(i ssa.Instruction) bool { return defs[i] }
+}
+
 func runPublish(c *Ctx, ruleS5, ruleS6 string) {
 	pubs := publishers(c)
-	// direct stores
-	nStores := 0
+	// S5, direct stores: after the publishing store, no write through the published value in the same function
+	nStores, nTableStores := 0, 0
 	for _, f := range c.AllFns {
 		eachInstr(f, func(i ssa.Instruction) {
 			cc := callCommon(i)
 			kind, _, val, isAtomic := atomicOp(cc)
-			if !isAtomic || kind != "store" || val == nil {
+			if !isAtomic || (kind != "store" && kind != "swap" && kind != "cas") || val == nil {
 				return
 			}
 			if _, isBasic := stripIface(val).Type().Underlying().(*types.Basic); isBasic {
 				return // counters and flags, not published structures
 			}
 			nStores++
-			v := publishedValue(val)[0]
-			// after the store, no write through v in this function
+			vals := c06publishedParts(val)
+			for _, v := range vals {
+				if namedIs(v.Type(), "route.Table") {
+					nTableStores++
+					break
+				}
+			}
 			bad := ""
 			var badPos token.Pos
+			redef := c06redefines(vals...)
 			eachInstr(f, func(j ssa.Instruction) {
-				if j == i || !pathAvoiding(i, j, nil) {
+				if j == i || !pathAvoiding(i, j, redef) {
 					return
 				}
-				if w, ok := writesVia(c, j, v); ok {
-					bad, badPos = w, j.Pos()
+				for _, v := range vals {
+					if w, ok := writesVia(c, j, v); ok {
+						bad, badPos = w, j.Pos()
+					}
 				}
 			})
 			pos := i.Pos()
@@ -366,8 +619,9 @@ func runPublish(c *Ctx, ruleS5, ruleS6 string) {
 				"a value handed to atomic.Value.Store is visible to concurrent readers; "+bad+" after the store mutates the published structure (readers see a mixture of old and new)")
 		})
 	}
-	c.atLeast(ruleS5, "atomic.Value.Store sites", nStores, 3)
-	// callers of publishers
+	c.atLeast(ruleS5, "atomic publishing stores of structured values", nStores, 1)
+	c.atLeast(ruleS5, "atomic publishing stores of a route.Table", nTableStores, 1)
+	// S5, callers of publishers: after the call, no write through the argument
 	nCalls := 0
 	for _, f := range c.AllFns {
 		eachInstr(f, func(i ssa.Instruction) {
@@ -375,93 +629,85 @@ func runPublish(c *Ctx, ruleS5, ruleS6 string) {
 			if cc == nil {
 				return
 			}
-			sc := cc.StaticCallee()
-			k, isPub := pubs[sc]
-			if sc == nil || !isPub || k >= len(cc.Args) {
-				return
-			}
-			nCalls++
-			v := cc.Args[k]
-			bad := ""
-			var badPos token.Pos
-			eachInstr(f, func(j ssa.Instruction) {
-				if j == i || !pathAvoiding(i, j, nil) {
-					return
+			for _, sc := range c06calleesOf(cc) {
+				k, isPub := pubs[sc]
+				args := c06argsFor(cc, sc)
+				if !isPub || sc == f || k >= len(args) || args[k] == nil {
+					continue
 				}
-				if w, ok := writesVia(c, j, v); ok {
-					bad, badPos = w, j.Pos()
+				nCalls++
+				v := args[k]
+				bad := ""
+				var badPos token.Pos
+				redef := c06redefines(v)
+				eachInstr(f, func(j ssa.Instruction) {
+					if j == i || !pathAvoiding(i, j, redef) {
+						return
+					}
+					if w, ok := writesVia(c, j, v); ok {
+						bad, badPos = w, j.Pos()
+					}
+				})
+				pos := i.Pos()
+				if bad != "" {
+					pos = badPos
 				}
-			})
-			pos := i.Pos()
-			if bad != "" {
-				pos = badPos
+				c.check(ruleS5, fnKey(f)+"|no write after "+fnKey(sc), pos, bad == "",
+					"after "+fnKey(sc)+" the value is published; "+bad+" afterwards mutates the table concurrent lookups are reading")
 			}
-			c.check(ruleS5, fnKey(f)+"|no write after "+fnKey(sc), pos, bad == "",
-				"after "+fnKey(sc)+" the value is published; "+bad+" afterwards mutates the table concurrent lookups are reading")
 		})
 	}
-	c.atLeast(ruleS5, "calls of publishing functions", nCalls, 2)
+	c.atLeast(ruleS5, "calls of publishing functions", nCalls, 1)
 
 	// S6: one snapshot per lookup
-	getTable := c.fn("route", "GetTable")
-	if !c.need(ruleS6, getTable, "route.GetTable") {
+	loaders := c06tableLoaders(c)
+	if len(loaders) == 0 {
+		c.undecided(ruleS6, "anchor|route.GetTable", "no function returns a route.Table obtained from an atomic load")
 		return
 	}
-	sroots := c.servingRoots()
 	nEntries := 0
-	for _, r := range sroots {
-		calls := []ssa.Instruction{}
-		eachInstr(r, func(i ssa.Instruction) {
-			if staticCalleeIs(i, getTable) {
-				calls = append(calls, i)
-			}
-		})
-		if len(calls) == 0 {
+	seenRoot := map[*ssa.Function]bool{}
+	for _, r := range c.servingRoots() {
+		r = unwrap(r) // bound-method / interface thunks: the method itself is the entry
+		if seenRoot[r] || !isRepoFn(r) {
+			continue
+		}
+		seenRoot[r] = true
+		sites := c06loadSites(r, loaders)
+		if len(sites) == 0 {
 			continue
 		}
 		nEntries++
-		multi := false
-		for _, a := range calls {
-			for _, b := range calls {
-				if pathAvoiding(a, b, nil) {
-					multi = true
-				}
-			}
-		}
-		c.check(ruleS6, fnKey(r)+"|one GetTable per request path", calls[0].Pos(), !multi,
+		c.check(ruleS6, fnKey(r)+"|one GetTable per request path", sites[0].Pos(), !c06loadsTwice(r, loaders, 0),
 			"a per-request entry must load the published table once; two loads on one path can straddle a table replacement, so one request is answered from a mixture of two tables")
 	}
-	// gRPC lookup helper is reached from the interceptor root
-	if lk := c.method("proxy", "GrpcProxyInterceptor", "lookup"); lk != nil {
-		calls := []ssa.Instruction{}
-		eachInstr(lk, func(i ssa.Instruction) {
-			if staticCalleeIs(i, getTable) {
-				calls = append(calls, i)
+	c.atLeast(ruleS6, "per-request entries that load the table", nEntries, 3)
+	// nothing below a method of the table reloads it
+	nMethods := 0
+	if tt := c.spkg("route"); tt != nil && tt.Type("Table") != nil {
+		seen := map[*ssa.Function]bool{}
+		for _, f := range c.AllFns {
+			if f.Signature.Recv() == nil || !namedIs(f.Signature.Recv().Type(), "route.Table") || seen[f] {
+				continue
 			}
-		})
-		if len(calls) > 0 {
-			nEntries++
-			multi := false
-			for _, a := range calls {
-				for _, b := range calls {
-					if pathAvoiding(a, b, nil) {
-						multi = true
-					}
+			seen[f] = true
+			nMethods++
+			reloads := false
+			for g := range c.reach(f) {
+				if loaders[g] {
+					reloads = true
 				}
 			}
-			c.check(ruleS6, fnKey(lk)+"|one GetTable per request path", calls[0].Pos(), !multi, "a per-request entry must load the published table once")
+			c.check(ruleS6, fnKey(f)+"|does not reload the table", f.Pos(), !reloads,
+				"nothing below a table method may call GetTable(): the method must answer from its receiver, the snapshot taken by the caller")
 		}
 	}
-	c.atLeast(ruleS6, "per-request entries that load the table", nEntries, 4)
-	for _, m := range []string{"Lookup", "LookupHost", "lookup", "matchingHosts", "matchingHostNoGlob"} {
-		f := c.method("route", "Table", m)
-		if f == nil {
+	for _, m := range []string{"Lookup", "LookupHost"} {
+		if c.method("route", "Table", m) == nil {
 			c.undecided(ruleS6, "anchor|route.Table."+m, "method not found")
-			continue
 		}
-		c.check(ruleS6, fnKey(f)+"|does not reload the table", f.Pos(), !c.reach(f)[getTable],
-			"nothing below a table method may call GetTable(): the method must answer from its receiver, the snapshot taken by the caller")
 	}
+	c.atLeast(ruleS6, "methods of route.Table", nMethods, 2)
 }
 
 // writesVia: instruction j writes memory rooted at v (store, map update, delete, or a call that does).
@@ -497,104 +743,270 @@ func writesVia(c *Ctx, j ssa.Instruction, v ssa.Value) (string, bool) {
 
 // ---- B1: glob cache bookkeeping ------------------------------------------------------------------
 
+// runGlobCacheB1 (C06.B1): the bookkeeping of the glob cache, wherever GlobCache.Get and its helpers keep it. Sites
+// are found by role in the region of the exported entry GlobCache.Get: the sync.Map field of the cache (calls of
+// Store / Delete / Load on it), its ring (a slice field indexed by an int field) and its mutex.
+//   - every insertion into / eviction from the map runs in a critical section (the lock is held at the call or by every
+//     caller): the map and the ring are updated together or not at all;
+//   - a ring slot is appended only on an edge on which index < len(ring) is known;
+//   - a ring slot is overwritten only if the key the slot held BEFORE the overwrite is deleted from the map on that path;
+//   - after acquiring the lock and before inserting, the map is consulted again (miss re-checked under the lock).
 func runGlobCacheB1(c *Ctx) {
-	get := c.method("route", "GlobCache", "Get")
-	if !c.need("C06.B1", get, "route.GlobCache.Get") {
+	const rule = "C06.B1"
+	// the region: every method of the cache type and the helpers / closures they use (GlobCache.Get today)
+	methods := c.fnsWhere("route", func(f *ssa.Function) bool {
+		return f.Signature.Recv() != nil && namedIs(f.Signature.Recv().Type(), "route.GlobCache")
+	})
+	if len(methods) == 0 {
+		c.undecided(rule, "anchor|route.GlobCache.Get", "no method of route.GlobCache with a body")
 		return
 	}
-	isMapCall := func(i ssa.Instruction, m string) bool {
+	reg := c.region(methods...)
+	onCache := func(v ssa.Value) bool {
+		switch x := v.(type) {
+		case *ssa.FieldAddr:
+			return namedIs(x.X.Type(), "route.GlobCache")
+		case *ssa.Field:
+			return namedIs(x.X.Type(), "route.GlobCache")
+		}
+		return false
+	}
+	isMapCall := func(i ssa.Instruction, ms ...string) bool {
 		cc := callCommon(i)
-		if cc == nil || calleeName(cc) != "(*sync.Map)."+m || len(cc.Args) == 0 {
+		if cc == nil || len(cc.Args) == 0 || !onCache(cc.Args[0]) {
 			return false
 		}
-		_, ok := fieldOf(cc.Args[0], "route.GlobCache", "m")
-		return ok
+		n := calleeName(cc)
+		for _, m := range ms {
+			if n == "(*sync.Map)."+m {
+				return true
+			}
+		}
+		return false
 	}
-	var stores, deletes, loads []ssa.Instruction
-	eachInstr(get, func(i ssa.Instruction) {
-		switch {
-		case isMapCall(i, "Store"):
-			stores = append(stores, i)
-		case isMapCall(i, "Delete"):
-			deletes = append(deletes, i)
-		case isMapCall(i, "Load"):
-			loads = append(loads, i)
+	// ring slot address: &ring[idx] where ring is a load of a slice field of the cache
+	slotAddr := func(v ssa.Value) (*ssa.IndexAddr, bool) {
+		ia, ok := v.(*ssa.IndexAddr)
+		if !ok {
+			return nil, false
 		}
-	})
-	c.atLeast("C06.B1", "sync.Map Store calls in GlobCache.Get", len(stores), 1)
-	// ring slot stores: c.l[...] = pattern
+		u, ok := ia.X.(*ssa.UnOp)
+		if !ok || u.Op != token.MUL || !onCache(u.X) {
+			return nil, false
+		}
+		if _, isSlice := u.Type().Underlying().(*types.Slice); !isSlice {
+			return nil, false
+		}
+		return ia, true
+	}
+	isRingLen := func(v ssa.Value) bool {
+		u, ok := v.(*ssa.UnOp)
+		if !ok || u.Op != token.MUL || !onCache(u.X) {
+			return false
+		}
+		_, isSlice := u.Type().Underlying().(*types.Slice)
+		return isSlice
+	}
+	// slotLoad: v is the value read from a ring slot; returns the slot address
+	slotLoad := func(v ssa.Value) (*ssa.UnOp, *ssa.IndexAddr) {
+		u, ok := stripIface(v).(*ssa.UnOp)
+		if !ok || u.Op != token.MUL {
+			return nil, nil
+		}
+		if ia, ok := slotAddr(u.X); ok {
+			return u, ia
+		}
+		return nil, nil
+	}
+	underLock := func(i ssa.Instruction) bool { return c06lockedAtAll(c, i, true, 0) }
+
+	var mapWrites, mapDeletes []ssa.Instruction
 	var slotStores []*ssa.Store
-	eachInstr(get, func(i ssa.Instruction) {
+	var locks []ssa.Instruction
+	eachInstrOf(reg, func(_ *ssa.Function, i ssa.Instruction) {
+		switch {
+		case isMapCall(i, "Store", "LoadOrStore", "Swap", "CompareAndSwap"):
+			mapWrites = append(mapWrites, i)
+		case isMapCall(i, "Delete", "LoadAndDelete", "CompareAndDelete"):
+			mapDeletes = append(mapDeletes, i)
+		}
 		if st, ok := i.(*ssa.Store); ok {
-			if ia, ok := st.Addr.(*ssa.IndexAddr); ok {
-				if _, isL := fieldOf(ia.X, "route.GlobCache", "l"); isL {
-					slotStores = append(slotStores, st)
-				}
+			if _, ok := slotAddr(st.Addr); ok {
+				slotStores = append(slotStores, st)
+			}
+		}
+		if _, k := lockCallKind(i); k == "lock" {
+			locks = append(locks, i)
+		} else if call, ok := i.(*ssa.Call); ok {
+			if sc := call.Call.StaticCallee(); sc != nil && c06acquirer(unwrap(sc), true) {
+				locks = append(locks, i) // the lock is taken by a wrapper method
 			}
 		}
 	})
-	c.atLeast("C06.B1", "ring slot stores in GlobCache.Get", len(slotStores), 2)
-	for _, st := range slotStores {
-		ia := st.Addr.(*ssa.IndexAddr)
-		idxPath := accessPath(ia.Index)
-		// growth branch: index is the count field n and the store is under n < len(l)
-		if strings.HasSuffix(idxPath, ".n") {
-			ok := false
-			for _, f := range factsAt(st.Block()) {
-				if b, isB := f.Cond.(*ssa.BinOp); isB && b.Op == token.LSS && f.Truth && strings.HasSuffix(accessPath(b.X), ".n") {
-					if call, isCall := b.Y.(*ssa.Call); isCall && calleeName(&call.Call) == "builtin.len" {
-						ok = true
-					}
+	c.atLeast(rule, "insertions into the cache map by the methods of route.GlobCache", len(mapWrites), 1)
+	c.atLeast(rule, "ring slot stores by the methods of route.GlobCache", len(slotStores), 1)
+
+	// (a) the map changes only inside the critical section
+	for _, i := range append(append([]ssa.Instruction{}, mapWrites...), mapDeletes...) {
+		c.check(rule, fnKey(i.Parent())+"|map updated inside the critical section", i.Pos(), underLock(i),
+			"the cache map and the ring (slots, head, count) must change together under the mutex: an insertion or eviction performed after the lock is released interleaves with another request's, so evicted keys stay in the map (the cache grows beyond its size) or a live entry is deleted")
+	}
+
+	// pure counters: int fields of the cache whose every store outside a constructor is field = field + constant
+	counter := map[string]bool{}
+	notCounter := map[string]bool{}
+	for _, f := range c.fnsWhere("route", func(*ssa.Function) bool { return true }) {
+		eachInstr(f, func(i ssa.Instruction) {
+			st, ok := i.(*ssa.Store)
+			if !ok {
+				return
+			}
+			fa, ok := st.Addr.(*ssa.FieldAddr)
+			if !ok || !onCache(fa) {
+				return
+			}
+			if _, isAlloc := fa.X.(*ssa.Alloc); isAlloc {
+				return
+			}
+			name := fieldName(fa.X.Type(), fa.Field)
+			inc := false
+			if b, ok := st.Val.(*ssa.BinOp); ok && b.Op == token.ADD {
+				if _, isK := b.Y.(*ssa.Const); isK && c06path(b.X) == c06path(fa) {
+					inc = true
 				}
 			}
-			c.check("C06.B1", "(*route.GlobCache).Get|append slot under n < len(l)", st.Pos(), ok, "the ring may grow only while n < len(l); otherwise the cache exceeds its configured size or indexes out of range")
+			if inc {
+				counter[name] = true
+			} else {
+				notCounter[name] = true
+			}
+		})
+	}
+	isCounterIdx := func(idx ssa.Value) bool {
+		u, ok := c06stripConv(idx).(*ssa.UnOp)
+		if !ok || u.Op != token.MUL {
+			return false
+		}
+		fa, ok := u.X.(*ssa.FieldAddr)
+		if !ok || !onCache(fa) {
+			return false
+		}
+		n := fieldName(fa.X.Type(), fa.Field)
+		return counter[n] && !notCounter[n]
+	}
+
+	for _, st := range slotStores {
+		ia, _ := slotAddr(st.Addr)
+		F := st.Parent()
+		want := c06path(ia.Index)
+		sameIdx := func(v ssa.Value) bool { return v == ia.Index || c06path(v) == want }
+		// (b) growth: the store is under idx < len(ring)
+		guarded := false
+		for _, f := range factsAt(st.Block()) {
+			if c06lessThanLenFact(f, sameIdx, isRingLen) {
+				guarded = true
+			}
+		}
+		if guarded || isCounterIdx(ia.Index) {
+			c.check(rule, fnKey(F)+"|append slot under n < len(l)", st.Pos(), guarded, "the ring may grow only while n < len(l); otherwise the cache exceeds its configured size or indexes out of range")
 			continue
 		}
-		// overwrite branch: a Delete of the slot being overwritten must precede the Store into the map
-		okDel := false
-		for _, d := range deletes {
+		// (c) overwrite: the key the slot held before must be deleted from the map on this path
+		directDelete := func(d ssa.Instruction) (*ssa.UnOp, bool) {
+			if !isMapCall(d, "Delete", "LoadAndDelete") {
+				return nil, false
+			}
 			dcc := callCommon(d)
-			if len(dcc.Args) == 2 {
-				key := stripIface(dcc.Args[1])
-				if u, isLoad := key.(*ssa.UnOp); isLoad {
-					if dia, isIA := u.X.(*ssa.IndexAddr); isIA && accessPath(dia.Index) == idxPath {
-						// the delete must run before the slot is overwritten and before the map store on this path
-						before := dominatesInstr(d, st)
-						for _, ms := range stores {
-							if ms.Block() == st.Block() || ms.Block().Dominates(st.Block()) || st.Block().Dominates(ms.Block()) {
-								if sameRegion(ms, st) && !dominatesInstr(d, ms) {
-									before = false
-								}
-							}
-						}
-						if before {
-							okDel = true
-						}
-					}
+			if len(dcc.Args) < 2 {
+				return nil, false
+			}
+			ld, lia := slotLoad(dcc.Args[1])
+			if ld == nil || c06path(lia.Index) != want {
+				return nil, false
+			}
+			return ld, true
+		}
+		okDel := false
+		eachInstr(F, func(d ssa.Instruction) {
+			if okDel {
+				return
+			}
+			onPath := func() bool {
+				if dominatesInstr(d, st) {
+					return true
+				}
+				if !dominatesInstr(st, d) {
+					return false
+				}
+				_, escapes := exitReachableAvoiding(st, func(x ssa.Instruction) bool { return x == d })
+				return !escapes
+			}
+			if ld, ok := directDelete(d); ok {
+				// the key is read from the slot before the slot is overwritten
+				if dominatesInstr(ld, st) && onPath() {
+					okDel = true
+				}
+				return
+			}
+			// a helper that evicts the slot on all of its paths, called before the overwrite
+			if call, isCall := d.(*ssa.Call); isCall {
+				if sc := call.Call.StaticCallee(); sc != nil && isRepoFn(sc) && dominatesInstr(d, st) &&
+					mustExec(unwrap(sc), func(x ssa.Instruction) bool { _, ok := directDelete(x); return ok }, 1) {
+					okDel = true
+				}
+			}
+		})
+		if !okDel {
+			// the old key is read here before the overwrite, handed to another function of the region (result,
+			// argument) and deleted there
+			for _, d := range mapDeletes {
+				dcc := callCommon(d)
+				if d.Parent() == F || len(dcc.Args) < 2 {
+					continue
+				}
+				if derives(dcc.Args[1], func(x ssa.Value) bool {
+					ld, lia := slotLoad(x)
+					return ld != nil && ld.Parent() == F && c06path(lia.Index) == want && dominatesInstr(ld, st)
+				}) {
+					okDel = true
 				}
 			}
 		}
-		c.check("C06.B1", "(*route.GlobCache).Get|evict before overwrite", st.Pos(), okDel,
-			"when the ring is full the entry of the slot being overwritten must be deleted from the map before the new pattern is stored and the slot overwritten; otherwise the evicted key stays in the map forever (unbounded growth) or the new entry is deleted")
+		c.check(rule, fnKey(F)+"|evict before overwrite", st.Pos(), okDel,
+			"when the ring is full the entry of the slot being overwritten must be deleted from the map (the key read from the slot before it is overwritten); otherwise the evicted key stays in the map forever (unbounded growth) or the new entry is deleted")
 	}
-	// double-check under the lock: a Load of the pattern dominated by the lock acquisition
-	var lockI ssa.Instruction
-	eachInstr(get, func(i ssa.Instruction) {
-		if _, k := lockCallKind(i); k == "lock" {
-			lockI = i
-		}
-	})
-	if lockI != nil {
+
+	// (d) double-check under the lock: after the acquisition that precedes an insertion, the map is consulted again
+	isLoad := func(i ssa.Instruction) bool { return isMapCall(i, "Load", "LoadOrStore") }
+	isWrite := func(i ssa.Instruction) bool { return isMapCall(i, "Store", "LoadOrStore", "Swap", "CompareAndSwap") }
+	mustLoad, mayWrite := liftMust(isLoad, 1), liftMay(isWrite)
+	nLocks := 0
+	for _, l := range locks {
+		F := l.Parent()
+		inserts := false
 		re := false
-		for _, l := range loads {
-			if dominatesInstr(lockI, l) {
+		eachInstr(F, func(j ssa.Instruction) {
+			if j == l {
+				return
+			}
+			if mayWrite(j) && canReach(l, j) {
+				inserts = true
+			}
+			if mustLoad(j) && dominatesInstr(l, j) {
 				re = true
 			}
+		})
+		if !inserts {
+			continue
 		}
-		c.check("C06.B1", "(*route.GlobCache).Get|miss re-checked under the lock", lockI.Pos(), re,
+		nLocks++
+		c.check(rule, fnKey(F)+"|miss re-checked under the lock", l.Pos(), re,
 			"two requests that miss the same pattern both reach the slow path; without re-reading the map under the lock the pattern is entered into the ring twice, and evicting the first copy later deletes the live map entry of the second")
 	}
+	c.atLeast(rule, "lock acquisitions that precede an insertion into the cache map", nLocks, 1)
 }
+
+// c06s3 is the guarded-by rule; see c06_locks.go.
 
 func sameRegion(a, b ssa.Instruction) bool {
 	return a.Block() == b.Block() || a.Block().Dominates(b.Block()) || b.Block().Dominates(a.Block())
@@ -679,9 +1091,9 @@ func divisorNonZero(b *ssa.BinOp) (bool, string) {
 		}
 		break
 	}
-	same := samePath(d)
+	same := c06samePath(d) // also across the boundary of a helper that inherits its call site's branch facts
 	// len(x): also accept facts on len of the same x
-	for _, f := range factsAt(b.Block()) {
+	for _, f := range c06expandFacts(factsAt(b.Block())) {
 		cmp, ok := f.Cond.(*ssa.BinOp)
 		if !ok {
 			continue
